@@ -2,6 +2,11 @@ package parser
 
 import "github.com/woodsbury/jmespath/internal/lexer"
 
+// projectionPrecedence is the binding power with which the right-hand side of
+// every projection is parsed: selectors (which all bind tighter than a
+// flatten) extend it, a flatten or any operator ends it.
+const projectionPrecedence = 8
+
 func precedence(t lexer.TokenType) int {
 	switch t {
 	case lexer.PipeToken:
